@@ -19,5 +19,6 @@ def check(ctx: Ctx) -> None:
     N.r_id_discipline(ctx, "R03.7")
     from . import cancel as K
     K.r_cancel_targets(ctx, "R03.8")
+    S.r_counters(ctx, "R03.9")
     S.r_handoff(ctx, "R02.1")
     S.r_snapshot_forget(ctx, "R13.1")
